@@ -59,12 +59,13 @@ def link_functions_stub(vmrun_new):
 class SwapAnalysis(progcheck.ProgramAnalysis):
     """old program = self.path; new program = new_path (same file for C06)"""
 
-    def __init__(self, new_path=None, pre_steps=0, voices_kept=None, voices_new=None, **kw):
+    def __init__(self, new_path=None, pre_steps=0, voices_kept=None, voices_new=None, voices_inner=None, **kw):
         progcheck.ProgramAnalysis.__init__(self, **kw)
         self.new_path = new_path or self.path
         self.pre_steps = pre_steps
         self.voices_kept = voices_kept      # [(old child index, new child index)] untouched voices (C07)
         self.voices_new = voices_new        # [new child index] inserted voices
+        self.voices_inner = voices_inner    # [(old child index, new child index)] voices edited INSIDE: their untouched call sites continue
         self.result['new_program'] = os.path.basename(self.new_path)[:-4]
         self.result['backends'] = ['vm']
 
@@ -98,6 +99,19 @@ class SwapAnalysis(progcheck.ProgramAnalysis):
                 n = skel_total(c)
                 out.append((off, n))
                 off += n
+            return out
+
+        def site_list(sk, base=0, depth=0, out=None):
+            """leaves of a voice with (address relative to the voice, words, signature)"""
+            if out is None:
+                out = []
+            if sk.get('children') is not None and sk.get('k', 'FnCall') == 'FnCall':
+                off = base
+                for c in sk['children']:
+                    site_list(c, off, depth + 1, out)
+                    off += skel_total(c)
+            else:
+                out.append((base, skel_total(sk), (sk.get('k'), skel_total(sk), depth)))
             return out
 
         def path(it):
@@ -148,6 +162,17 @@ class SwapAnalysis(progcheck.ProgramAnalysis):
                         raise SwapViolation('untouched voice changed its state size (%d -> %d): edit script inconsistent' % (so, sn))
                     for k in range(so):
                         an.require_equal(it, nstate[a_n + k], snapshot[ao + k], 'untouched voice old#%d -> new#%d lost state word %d' % (oi, ni, k))
+                for (oi, ni) in an.voices_inner or []:
+                    # call sites whose (kind, size, depth) occurs exactly once in the old and once in the new version of the voice
+                    # are the untouched ones (the scripts only use voices whose sites are pairwise distinguishable)
+                    so_, sn_ = site_list(skel_old['children'][oi]), site_list(skel_new['children'][ni])
+                    for (ra, words, sig) in so_:
+                        mo = [x for x in so_ if x[2] == sig]
+                        mn = [x for x in sn_ if x[2] == sig]
+                        if len(mo) == 1 and len(mn) == 1:
+                            for k in range(words):
+                                an.require_equal(it, nstate[rn[ni][0] + mn[0][0] + k], snapshot[ro[oi][0] + ra + k],
+                                                 'untouched call site %s inside edited voice old#%d -> new#%d lost state word %d' % (sig[0], oi, ni, k))
                 for ni in an.voices_new or []:
                     a_n, sn = rn[ni]
                     for k in range(sn):
